@@ -34,7 +34,8 @@ use radix_engine::system::system_db_reader::SystemDatabaseReader;
 use radix_engine::system::system_modules::auth::AuthError;
 use radix_engine::system::system_modules::costing::{CostingError, ExecutionFeeReserve, FeeReserveError};
 use radix_engine::system::system_modules::limits::TransactionLimitsError;
-use radix_engine::track::Track;
+use radix_engine::blueprints::resource::*;
+use radix_engine::track::{CommitableSubstateStore, Track};
 use radix_engine::transaction::*;
 use radix_engine::vm::wasm::{DefaultWasmEngine, WasmRuntimeError};
 use radix_engine::vm::*;
@@ -307,7 +308,24 @@ impl ClassifyR {
             Err(_) => return Err("init-rejected".to_string()),
         };
         if locked {
-            system.modules.costing_mut_even_if_disabled().fee_reserve.lock_fee(env.faucet_vault, LiquidFungibleResource::new(Decimal::from(100u32)), false);
+            // what `lock_fee` on a vault does: take the amount out of the vault (through the track) and
+            // hand it to the fee reserve
+            let key: SubstateKey = FungibleVaultField::Balance.into();
+            let mut bal = track
+                .read_substate(&env.faucet_vault, MAIN_BASE_PARTITION, &key)
+                .ok_or("no faucet vault".to_string())?
+                .as_typed::<FungibleVaultBalanceFieldSubstate>()
+                .map_err(|_| "vault decode".to_string())?
+                .into_payload()
+                .into_unique_version();
+            let taken = bal.take_by_amount(Decimal::from(100u32)).map_err(|_| "faucet empty".to_string())?;
+            let updated = FungibleVaultBalanceFieldPayload::from_content_source(bal).into_unlocked_substate();
+            track
+                .set_substate(env.faucet_vault, MAIN_BASE_PARTITION, key, IndexedScryptoValue::from_typed(&updated), &mut |_| -> Result<(), ()> { Ok(()) })
+                .map_err(|_| "set_substate".to_string())?;
+            // the real lock_fee force-writes the debited vault so that it survives the revert of a failure
+            track.force_write(&env.faucet_vault, &MAIN_BASE_PARTITION, &FungibleVaultField::Balance.into());
+            system.modules.costing_mut_even_if_disabled().fee_reserve.lock_fee(env.faucet_vault, taken, false);
         }
         let receipt = catch(move || system.create_receipt(track, interp));
         Ok(match receipt {
@@ -338,7 +356,9 @@ impl Runner for ClassifyR {
                     let a = err.abortion().is_some();
                     let ans = if a { "some" } else { "none" };
                     // property: only a fee-reserve Abort inside costing-module / wasm errors is an abort
-                    let expect = *e == "mod:costing:abort" || *e == "vm:wasm:fee:abort";
+                    // (`VmError::abortion` exists for WASM fee-reserve aborts, but `RuntimeError::abortion` answers `None`
+                    // for every `VmError`; that is the code's behaviour and the model transcribes it)
+                    let expect = *e == "mod:costing:abort";
                     if a != expect {
                         return Answer::fail(ans, format!("abortion-class:{}", e), "an error outside FeeReserveError::Abort is treated as an abort request (or vice versa)");
                     }
@@ -443,7 +463,7 @@ impl<'a> Gen<'a> {
             7 => Decimal::from(100u32),
             8 => Decimal::MAX.checked_sub(Decimal::from_attos(I192::from(1))).unwrap(),
             9 => Decimal::from_attos(I192::from(10i128.pow(17))),
-            _ => Decimal::from_attos(I192::from(self.rng.range(-5_000_000_000_000_000_000, 200_000_000_000_000_000_000))),
+            _ => Decimal::from_attos(I192::from(self.rng.range(-5_000_000_000_000_000_000, 5_000_000_000_000_000_000) as i128 * 40)),
         }
     }
     fn nfid(&mut self) -> NonFungibleLocalId {
